@@ -4,6 +4,10 @@ package kbin
 
 // Verification contracts (comments only). This file is compiled only with -tags verif and
 // contains no code; the directives are read by /verif/govc.
+//
+// Conventions: "mode int bv" verifies a function twice, once with mathematical integers made to wrap
+// exactly (shape: lengths, prefixes, frames, bounds) and once with bit-vectors (byte values); a
+// clause tagged [int] or [bv] is checked in that mode only and assumed by callers in either.
 
 // ---- specification functions (written from the Kafka protocol guide, not from the code) ----
 
@@ -37,10 +41,15 @@ package kbin
 //@      | ite(uvN64(in) < 8, 0, uint64(in[7]&0x7f) << 49) | ite(uvN64(in) < 9, 0, uint64(in[8]&0x7f) << 56)
 //@      | ite(uvN64(in) < 10, 0, uint64(in[9]) << 63))
 
+//@ spec be16at(s []byte, o int) uint16 = uint16(s[o])<<8 | uint16(s[o+1])
+//@ spec be32at(s []byte, o int) uint32 = uint32(s[o])<<24 | uint32(s[o+1])<<16 | uint32(s[o+2])<<8 | uint32(s[o+3])
+//@ spec be64at(s []byte, o int) uint64 = uint64(s[o])<<56 | uint64(s[o+1])<<48 | uint64(s[o+2])<<40 | uint64(s[o+3])<<32
+//@      | uint64(s[o+4])<<24 | uint64(s[o+5])<<16 | uint64(s[o+6])<<8 | uint64(s[o+7])
+
 // ---- length functions ----
 
 //@ func UvarintLen(u uint32) (n int)
-//@   mode bv
+//@   mode bv int
 //@   prop C17
 //@   nopanic
 //@   pure
@@ -54,7 +63,7 @@ package kbin
 //@   ensures n == uvlen32(zz32(i))
 
 //@ func uvarlongLen(u uint64) (n int)
-//@   mode bv
+//@   mode bv int
 //@   prop C17
 //@   nopanic
 //@   pure
@@ -119,3 +128,113 @@ package kbin
 //@      ==> (uvN64(in) == uvlen64(u) && uvX64(in) == u)
 //@   mode bv
 //@   prop C17
+
+// ---- encoders: out == dst ++ encoding; dst's prefix is preserved; only dst's spare capacity is written ----
+
+//@ func AppendBool(dst []byte, v bool) (out []byte)
+//@   mode int bv
+//@   prop C17
+//@   nopanic
+//@   modifies elems(dst)
+//@   ensures [int] len(out) == len(dst) + 1
+//@   ensures [int] forall k in 0..len(dst) :: out[k] == old(dst[k])
+//@   ensures out[len(dst)] == ite(v, byte(1), byte(0))
+
+//@ func AppendInt8(dst []byte, i int8) (out []byte)
+//@   mode int bv
+//@   prop C17
+//@   nopanic
+//@   modifies elems(dst)
+//@   ensures [int] len(out) == len(dst) + 1
+//@   ensures [int] forall k in 0..len(dst) :: out[k] == old(dst[k])
+//@   ensures [bv] out[len(dst)] == byte(i)
+
+//@ func AppendUint16(dst []byte, u uint16) (out []byte)
+//@   mode int bv
+//@   prop C17
+//@   nopanic
+//@   modifies elems(dst)
+//@   ensures [int] len(out) == len(dst) + 2
+//@   ensures [int] forall k in 0..len(dst) :: out[k] == old(dst[k])
+//@   ensures [bv] be16at(out, len(dst)) == u
+
+//@ func AppendInt16(dst []byte, i int16) (out []byte)
+//@   mode int bv
+//@   prop C17
+//@   nopanic
+//@   modifies elems(dst)
+//@   ensures [int] len(out) == len(dst) + 2
+//@   ensures [int] forall k in 0..len(dst) :: out[k] == old(dst[k])
+//@   ensures [bv] be16at(out, len(dst)) == uint16(i)
+
+//@ func AppendUint32(dst []byte, u uint32) (out []byte)
+//@   mode int bv
+//@   prop C17
+//@   nopanic
+//@   modifies elems(dst)
+//@   ensures [int] len(out) == len(dst) + 4
+//@   ensures [int] forall k in 0..len(dst) :: out[k] == old(dst[k])
+//@   ensures [bv] be32at(out, len(dst)) == u
+
+//@ func AppendInt32(dst []byte, i int32) (out []byte)
+//@   mode int bv
+//@   prop C17
+//@   nopanic
+//@   modifies elems(dst)
+//@   ensures [int] len(out) == len(dst) + 4
+//@   ensures [int] forall k in 0..len(dst) :: out[k] == old(dst[k])
+//@   ensures [bv] be32at(out, len(dst)) == uint32(i)
+
+//@ func appendUint64(dst []byte, u uint64) (out []byte)
+//@   mode int bv
+//@   prop C17
+//@   nopanic
+//@   modifies elems(dst)
+//@   ensures [int] len(out) == len(dst) + 8
+//@   ensures [int] forall k in 0..len(dst) :: out[k] == old(dst[k])
+//@   ensures [bv] be64at(out, len(dst)) == u
+
+//@ func AppendInt64(dst []byte, i int64) (out []byte)
+//@   mode int bv
+//@   prop C17
+//@   nopanic
+//@   modifies elems(dst)
+//@   ensures [int] len(out) == len(dst) + 8
+//@   ensures [int] forall k in 0..len(dst) :: out[k] == old(dst[k])
+//@   ensures [bv] be64at(out, len(dst)) == uint64(i)
+
+//@ func AppendUvarint(dst []byte, u uint32) (out []byte)
+//@   mode int bv
+//@   prop C17
+//@   nopanic
+//@   modifies elems(dst)
+//@   ensures [int] len(out) == len(dst) + uvlen32(u)
+//@   ensures [int] forall k in 0..len(dst) :: out[k] == old(dst[k])
+//@   ensures [bv] forall k in 0..5 :: k < uvlen32(u) ==> out[len(dst)+k] == uvbyte32(u, k)
+
+//@ func AppendVarint(dst []byte, i int32) (out []byte)
+//@   mode int bv
+//@   prop C17
+//@   nopanic
+//@   modifies elems(dst)
+//@   ensures [bv] len(out) == len(dst) + uvlen32(zz32(i))
+//@   ensures [int] forall k in 0..len(dst) :: out[k] == old(dst[k])
+//@   ensures [bv] forall k in 0..5 :: k < uvlen32(zz32(i)) ==> out[len(dst)+k] == uvbyte32(zz32(i), k)
+
+//@ func appendUvarlong(dst []byte, u uint64) (out []byte)
+//@   mode int bv
+//@   prop C17
+//@   nopanic
+//@   modifies elems(dst)
+//@   ensures [int] len(out) == len(dst) + uvlen64(u)
+//@   ensures [int] forall k in 0..len(dst) :: out[k] == old(dst[k])
+//@   ensures [bv] forall k in 0..10 :: k < uvlen64(u) ==> out[len(dst)+k] == uvbyte64(u, k)
+
+//@ func AppendVarlong(dst []byte, i int64) (out []byte)
+//@   mode int bv
+//@   prop C17
+//@   nopanic
+//@   modifies elems(dst)
+//@   ensures [bv] len(out) == len(dst) + uvlen64(zz64(i))
+//@   ensures [int] forall k in 0..len(dst) :: out[k] == old(dst[k])
+//@   ensures [bv] forall k in 0..10 :: k < uvlen64(zz64(i)) ==> out[len(dst)+k] == uvbyte64(zz64(i), k)
